@@ -35,9 +35,12 @@ type Kind struct {
 	// bound that results (the documented default of one second for a PoolTimeout <= 0); World.Queue is nil
 	// ZoneOffset: the deadline handed to the deadline limiter is expressed in a fixed zone that many seconds east of UTC
 	// (the same instant; only the Location of the time.Time value differs)
-	ZoneOffset  int           `json:"deadline_zone_offset_seconds,omitempty"`
-	ViaPool     bool          `json:"via_pool,omitempty"`
-	PoolTimeout time.Duration `json:"pool_timeout_argument,omitempty"`
+	ZoneOffset int `json:"deadline_zone_offset_seconds,omitempty"`
+	// ZeroTimeoutArg: the queue limiter is configured with MaxBacklogTimeout 0 ("give me the default"); Timeout is the bound
+	// that results (one second)
+	ZeroTimeoutArg bool          `json:"zero_timeout_argument,omitempty"`
+	ViaPool        bool          `json:"via_pool,omitempty"`
+	PoolTimeout    time.Duration `json:"pool_timeout_argument,omitempty"`
 }
 
 func (k Kind) String() string {
@@ -156,8 +159,12 @@ func NewWorld(k Kind, capacity int) *World {
 			w.Lim = p
 			break
 		}
+		tArg := k.Timeout
+		if k.ZeroTimeoutArg {
+			tArg = 0
+		}
 		q := limiter.NewQueueBlockingLimiterFromConfig(w.Gate, limiter.QueueLimiterConfig{Ordering: limiter.QueueOrdering(k.Ordering),
-			MaxBacklogSize: k.Backlog, MaxBacklogTimeout: k.Timeout, BacklogEvictDoneCtx: k.Evict, MetricRegistry: w.Reg})
+			MaxBacklogSize: k.Backlog, MaxBacklogTimeout: tArg, BacklogEvictDoneCtx: k.Evict, MetricRegistry: w.Reg})
 		w.Queue, w.Lim = q, q
 	default:
 		panic("family " + k.Family)
